@@ -3,6 +3,8 @@ package main
 import (
 	"bytes"
 	"fmt"
+	"os"
+	"strconv"
 
 	"github.com/sarchlab/akita/v4/mem/idealmemcontroller"
 
@@ -122,7 +124,7 @@ func (c *child) canonEmu() {
 func (c *child) canonFlushLast() {
 	th := c.canonThread()
 	ng := c.cfg.NGPU
-	ls := layoutSpec{Sizes: []int{64, 256, 16 * pageSize, 64}, Kinds: []string{"plain", "plain", "plain", "plain"}, GPUs: []int{1, 1, ng, 1}, NQ: 2}
+	ls := layoutSpec{Sizes: []int{64, 256, flushLastPages * pageSize, 64}, Kinds: []string{"plain", "plain", "plain", "plain"}, GPUs: []int{1, 1, ng, 1}, NQ: 2}
 	m := c.buildCtx(ls, th.r, nil)
 	th.ms = []*ctxModel{m}
 	th.initArena(m)
@@ -137,36 +139,40 @@ func (c *child) canonFlushLast() {
 		return 0
 	}
 	u32 := typeByName("[]uint32")
-	for round := 0; round < 4; round++ {
-		// variant 1: kernel finished, its dirty lines sit in GPU ng's L2
+	for round := 0; round < 2; round++ {
+		// variant 1: kernel finished, its dirty lines sit in GPU ng's L2; the
+		// first copy afterwards makes GPU ng write them all back
 		th.fq = qOn(ng)
 		th.kernel(m, B.Off, B.Size/4, kern.OpAdd, uint32(3+2*round), false)
 		th.drainAll()
-		th.fq = -1
 		if round%2 == 0 {
-			th.h2d(m, A.Off+8, 16, u32, true, "h2d")
+			th.fq = (qOn(ng) + 1) % len(m.queues) // a queue the deadlock watcher can inspect
+			th.h2d(m, A.Off+8, 16, u32, false, "h2d")
+			th.drainAll()
 		} else {
+			th.fq = -1
 			th.d2h(m, A.Off, 64, u32, true, "d2h", -1)
 		}
-		// variant 2: the kernel is still running on GPU ng when the copy is processed
-		th.fq = qOn(ng)
-		th.kernel(m, B.Off, B.Size/4, kern.OpXor, uint32(0x55+round), false)
-		th.fq = qOn(1)
-		if qOn(1) == qOn(ng) {
-			th.fq = (qOn(ng) + 1) % len(m.queues)
-		}
-		if round%2 == 0 {
+		c.count("canonical_cases|flushlast", 1)
+	}
+	// variant 2: the kernel is still running on GPU ng while a chain of small
+	// copies to GPU 1 is processed (each one flushes GPU ng in mid-kernel)
+	th.fq = qOn(ng)
+	th.kernel(m, B.Off, B.Size/4, kern.OpXor, 0x55, false)
+	th.fq = qOn(1)
+	if qOn(1) == qOn(ng) {
+		th.fq = (qOn(ng) + 1) % len(m.queues)
+	}
+	for k := 0; k < 6; k++ {
+		if k%2 == 0 {
 			th.d2h(m, A.Off, 128, u32, false, "d2h", -1)
 		} else {
 			th.h2d(m, A.Off+64, 32, u32, false, "h2d")
 		}
-		th.drainAll()
-		// the kernel's results
-		th.fq = noForce
-		th.verify(m, B.Off, B.end(), round%3, -1)
-		th.drainAll()
-		c.count("canonical_cases|flushlast", 1)
 	}
+	th.drainAll()
+	c.count("canonical_cases|flushlast", 1)
+	th.fq = noForce
 	th.verify(m, 0, len(m.shadow), 0, -1)
 	th.drainAll()
 	c.analyse()
@@ -333,3 +339,10 @@ func (c *child) canonStale() {
 	th.drainAll()
 	c.flush()
 }
+
+var flushLastPages = func() int {
+	if v, err := strconv.Atoi(os.Getenv("C11_FLPAGES")); err == nil && v > 0 {
+		return v
+	}
+	return 128
+}()
